@@ -2,7 +2,6 @@
 from pvc.world import Contract, ClassInfo
 
 T = 'malt.pyct.transpiler.'
-NONE_EXPR = 'parser.parse_expression("None")'
 
 
 def register(w):
@@ -11,25 +10,40 @@ def register(w):
                         fields={'defaults': 'List[AST]', 'kw_defaults': 'List[Any]'}))
   w.add_class(ClassInfo('GenericTranspiler', module='malt.pyct.transpiler'))
 
-  # every default expression and every non-None keyword-only default becomes the constant `None`
-  # (a None entry of kw_defaults marks a keyword-only parameter WITHOUT default and must stay None);
-  # lengths are unchanged, so the signature keeps its shape and no default expression is evaluated again
+  # parse_expression builds a NEW tree on every call (T: it calls ast.parse); which literal it denotes is a ghost
+  # predicate of the node (heap-independent: the engine does not model the fields of Constant nodes)
+  w.pure['is_none_literal'] = 'bool'
   w.add(Contract(
-      T + 'GenericTranspiler._erase_arg_defaults', serves=['C09'],
+      'malt.pyct.parser.parse_expression', abstract=True, serves=['C09', 'C17'], ghost={'params': ['src']},
+      types={'src': 'str', 'return': 'AST'}, modifies=[],
+      ensures=['fresh(result)', 'result is not None', 'implies(src == "None", is_none_literal(result))'],
+      assumes=['T: parser.parse_expression(text) returns a freshly parsed expression node for the text']))
+
+  # every default expression and every non-None keyword-only default becomes a `None` literal of its own
+  # (a None entry of kw_defaults marks a keyword-only parameter WITHOUT default and must stay None);
+  # lengths are unchanged, so the signature keeps its shape and no default expression is evaluated again;
+  # the placeholders are distinct new nodes (C17: no node object occurs twice in the tree)
+  PH = 'is_none_literal(%s) and fresh(%s)'
+  w.add(Contract(
+      T + 'GenericTranspiler._erase_arg_defaults', serves=['C09', 'C17'],
       types={'node': 'FunctionDefNode', 'return': 'FunctionDefNode'},
-      pure={'malt.pyct.parser.parse_expression': 'AST'},
-      requires=['node.args.defaults is not node.args.kw_defaults', '%s is not None' % NONE_EXPR],
+      requires=['node.args.defaults is not node.args.kw_defaults'],
       modifies=['contents(node.args.defaults)', 'contents(node.args.kw_defaults)'],
       locals_={'args': 'ArgumentsNode'},
       loops={
           0: dict(modifies=['contents(args.defaults)'], inv=[
               'len(args.defaults) == pre(len(args.defaults))',
-              'forall(lambda j: implies(0 <= j and j < _i, args.defaults[j] is %s), "int")' % NONE_EXPR]),
+              'forall(lambda j: implies(0 <= j and j < _i, %s), "int")' % (PH % ('args.defaults[j]', 'args.defaults[j]')),
+              'forall(lambda j, k: implies(0 <= j and j < k and k < _i, args.defaults[j] is not args.defaults[k]), "int", "int")']),
           1: dict(modifies=['contents(args.kw_defaults)'], inv=[
               'len(args.kw_defaults) == pre(len(args.kw_defaults))',
               'forall(lambda j: implies(0 <= j and j < _i, '
               '(args.kw_defaults[j] is None) == pre(args.kw_defaults[j] is None) and '
-              'implies(args.kw_defaults[j] is not None, args.kw_defaults[j] is %s)), "int")' % NONE_EXPR,
+              'implies(args.kw_defaults[j] is not None, %s)), "int")' % (PH % ('args.kw_defaults[j]', 'args.kw_defaults[j]')),
+              'forall(lambda j, k: implies(0 <= j and j < k and k < _i and args.kw_defaults[j] is not None, '
+              'args.kw_defaults[j] is not args.kw_defaults[k]), "int", "int")',
+              'forall(lambda j, k: implies(0 <= j and j < len(args.defaults) and 0 <= k and k < _i, '
+              'args.defaults[j] is not args.kw_defaults[k]), "int", "int")',
               'forall(lambda j: implies(_i <= j and j < len(args.kw_defaults), '
               'args.kw_defaults[j] is pre(args.kw_defaults[j])), "int")']),
       },
@@ -37,14 +51,20 @@ def register(w):
           'result is node',
           'len(node.args.defaults) == old(len(node.args.defaults))',
           'len(node.args.kw_defaults) == old(len(node.args.kw_defaults))',
-          'forall(lambda j: implies(0 <= j and j < len(node.args.defaults), node.args.defaults[j] is %s), "int")' % NONE_EXPR,
+          'forall(lambda j: implies(0 <= j and j < len(node.args.defaults), %s), "int")'
+          % (PH % ('node.args.defaults[j]', 'node.args.defaults[j]')),
           'forall(lambda j: implies(0 <= j and j < len(node.args.kw_defaults), '
           '(node.args.kw_defaults[j] is None) == old(node.args.kw_defaults[j] is None)), "int")',
-          'forall(lambda j: implies(0 <= j and j < len(node.args.kw_defaults) and node.args.kw_defaults[j] is not None, '
-          'node.args.kw_defaults[j] is %s), "int")' % NONE_EXPR,
-      ],
-      assumes=['parser.parse_expression is modelled as a pure function of its text (a None constant node)',
-               'parse_expression("None") is not the None object']))
+          'forall(lambda j: implies(0 <= j and j < len(node.args.kw_defaults) and node.args.kw_defaults[j] is not None, %s), "int")'
+          % (PH % ('node.args.kw_defaults[j]', 'node.args.kw_defaults[j]')),
+          # tree-ness of the placeholders
+          'forall(lambda j, k: implies(0 <= j and j < k and k < len(node.args.defaults), '
+          'node.args.defaults[j] is not node.args.defaults[k]), "int", "int")',
+          'forall(lambda j, k: implies(0 <= j and j < k and k < len(node.args.kw_defaults) and node.args.kw_defaults[j] is not None, '
+          'node.args.kw_defaults[j] is not node.args.kw_defaults[k]), "int", "int")',
+          'forall(lambda j, k: implies(0 <= j and j < len(node.args.defaults) and 0 <= k and k < len(node.args.kw_defaults), '
+          'node.args.defaults[j] is not node.args.kw_defaults[k]), "int", "int")',
+      ]))
 
   # ---- instantiate: closure cells are matched to the factory's free variables BY NAME ---------------------
   w.add_class(ClassInfo('_PythonFnFactory', module='malt.pyct.transpiler', fields={
